@@ -139,11 +139,17 @@ def judge(ctx: Ctx, res: Dict[str, Any], oracle: Dict[str, Any]) -> List[str]:
             m = system.allobjects.get(nskey[2:])
             if not isinstance(m, model.Module):
                 continue
+            idxq = P.module_index_by_qname(proj)
             for name, tgt in ns.items():
                 if tgt and tgt[0] == "obj" and json.dumps(tgt[1:]) in moved_sites:
                     x = moved_sites[json.dumps(tgt[1:])]
                     obj = system.allobjects.get(x["new"])
                     if obj is None:
+                        continue
+                    # "names either location": the defining module, the re-exporting module, or an import from one of the two;
+                    # an import from a third module that merely hands the name on is outside the property
+                    mi = idxq.get(nskey[2:], 0)
+                    if mi and mi not in (x["origin"], x["rex"]) and not (set(P.import_source_modules(proj, mi, name)) & {x["origin"], x["rex"]}):
                         continue
                     r1 = m.resolveName(name)
                     if r1 is not obj:
@@ -180,9 +186,27 @@ def kf_module_shadowed(w: Dict[str, Any]) -> bool:
     return x is not None and ".".join(P.mod_path(proj, x["origin"] - 1)) in (taken - {x["new"]})
 
 
+def kf_long_import_chain(w: Dict[str, Any]) -> bool:
+    """Known finding: the re-exporting module gets the name through THREE or more intermediate modules that each import it plainly
+    from the next (R: from .l3 import X; l3: from .l2 import X; l2: from .l1 import X; l1: from ._base import X): expandName follows
+    one import, find_object a second one, the third is not followed, so the object is not recognised and stays where it is defined.
+    Matches only when the object that was not moved is such an object and nothing else is wrong."""
+    o = w.get("origin", {})
+    d = w.get("detail", {}).get("MovedOnce")
+    if "project" not in o or not d or not set(w.get("failed", [])) <= {"MovedOnce", "ConsumersResolve", "ListedInReExporter"}:
+        return False
+    proj = {**o["project"], "family": "", "meta": {}}
+    x = next((e for e in P.expected_reexports(proj) if e["new"] == d["expected"]), None)
+    if x is None or x.get("intermediates", 0) < 3 or d["keys"] != [x["old"]]:
+        return False
+    cs = w.get("detail", {}).get("ConsumersResolve(static)")
+    return cs is None or (cs.get("expected") == x["new"] and cs.get("got") in (x["old"], None, ""))
+
+
 def run(ctx: Ctx) -> int:
     rng = random.Random(ctx.seed)
     ctx.register_matcher("defining-module-shadowed-by-reexported-namesake", kf_module_shadowed)
+    ctx.register_matcher("reexport-through-three-intermediate-imports", kf_long_import_chain)
     projs = c07_projects(ctx.quick, rng)
     results = procrun.explore(ctx, projs, record_states=False)
     oracles: Dict[int, Dict[str, Any]] = {}
